@@ -63,6 +63,27 @@ Theorem C20_version_does_not_flow : forall lk tag_of (v : value) (p : plan) (tag
 Proof. exact sets_first_ext_irrelevant. Qed.
 Print Assumptions C20_version_does_not_flow.
 
+(* Decoder side.  One Decoder (nested decoders share its version) reading successive values
+   from a cursor over items: a value whose first field (through leading structures) is the
+   set-version field, itself version-free, is decoded identically - value, version left
+   behind, position, error or panic - whatever version an earlier value left. *)
+Theorem C20_decoder_version_does_not_flow : forall (fuel : nat) (p : dplan) (tag : Z) (c : cursor)
+    (x1 x2 : option ver),
+  dsets_first p = true -> dec fuel p tag x1 c = dec fuel p tag x2 c.
+Proof. exact dsets_first_ext_irrelevant. Qed.
+Print Assumptions C20_decoder_version_does_not_flow.
+
+(* A plan without version ranges and set-version fields neither reads nor changes the
+   decoder's version. *)
+Theorem C20_decoder_version_untouched : forall (fuel : nat) (p : dplan) (tag : Z) (x : option ver) (c : cursor),
+  no_query p = true ->
+  dec fuel p tag x c = match dec fuel p tag None c with
+                       | ROk v _ c' => ROk v x c'
+                       | RErr => RErr | RPanic => RPanic | RBad => RBad
+                       end.
+Proof. intros fuel p tag x c H. exact (no_query_passthrough fuel p tag H x c). Qed.
+Print Assumptions C20_decoder_version_untouched.
+
 (* ---- the plan caches under every schedule ----------------------------------------- *)
 
 (* P: plans; deps ty: the nested encodeFuncFor/decodeFuncFor calls of the builder of ty;
@@ -206,4 +227,29 @@ Example C20_ex_history :
 Proof.
   intros lk h cs k Hk. cbn in Hk.
   repeat (destruct Hk as [<-|Hk]; [split; [vm_compute; discriminate|vm_compute; reflexivity]|]). destruct Hk.
+Qed.
+
+(* decode side: a header-first message plan satisfies dsets_first; a bare version-gated
+   value does not, and decoding its 1.0-shaped wire form really depends on the version the
+   decoder holds (error on a new decoder, success after a 1.0 header) *)
+Definition ex_dver : dplan := DStruct [DField (FOpts 60 false None false) (DLeaf KInt); DField (FOpts 61 false None false) (DLeaf KInt)].
+Definition ex_dbody : dplan :=
+  DStruct [DField (FOpts 20 false (Some (Some (1, 2), None)) false) (DLeaf KInt); DField (FOpts 21 false None false) (DLeaf KInt)].
+Definition ex_dmsg : dplan :=
+  DStruct [DField (FOpts 70 false None false) (DStruct [DField (FOpts 50 false None true) ex_dver]);
+           DField (FOpts 71 false None false) ex_dbody].
+Definition ex_wire_body_10 : cursor := [IStruct 71 [IPrim 21 (LInt 5)]].
+Definition ex_wire_msg_10 : cursor :=
+  [IStruct 700 [IStruct 70 [IStruct 50 [IPrim 60 (LInt 1); IPrim 61 (LInt 0)]]; IStruct 71 [IPrim 21 (LInt 5)]]].
+
+Example C20_ex_decoder :
+  dsets_first ex_dmsg = true /\ dsets_first ex_dbody = false /\
+  dec 20 ex_dbody 71 None ex_wire_body_10 = RErr /\
+  (exists v c, dec 20 ex_dbody 71 (Some (1, 0)) ex_wire_body_10 = ROk v (Some (1, 0)) c) /\
+  (exists v, dec 20 ex_dmsg 700 (Some (1, 4)) ex_wire_msg_10 = ROk v (Some (1, 0)) [] /\
+             dec 20 ex_dmsg 700 None ex_wire_msg_10 = ROk v (Some (1, 0)) []).
+Proof.
+  split; [reflexivity|]. split; [reflexivity|]. split; [vm_compute; reflexivity|].
+  split; [eexists; eexists; vm_compute; reflexivity|].
+  eexists. split; vm_compute; reflexivity.
 Qed.
